@@ -162,8 +162,108 @@ fn run_history(rep: &mut Report, cfg: &ClientCfg, hist: &[OneCall]) {
     }
 }
 
+/// The client's error handler, and the sink, may themselves use the library (report the failure
+/// as a metric through another client, forward to another client): a quiet send nested inside
+/// another call on the same thread must behave like any other.
+fn reentrant(rep: &mut Report) {
+    use cadence::prelude::*;
+    use cadence::{MetricSink, StatsdClient};
+    use std::sync::{Arc, Mutex};
+    struct Forward {
+        inner: StatsdClient,
+        log: Arc<Mutex<Vec<String>>>,
+        refuse: bool,
+    }
+    impl MetricSink for Forward {
+        fn emit(&self, m: &str) -> io::Result<usize> {
+            self.log.lock().unwrap().push(format!("outer:{}", m));
+            // forward a derived metric through another client, quietly
+            self.inner.count_with_tags("forwarded", 1).with_tag("from", "sink").send();
+            let _ = self.inner.gauge("forwarded.len", m.len() as u64);
+            if self.refuse {
+                Err(io::Error::new(io::ErrorKind::BrokenPipe, crate::writer::Injected(7)))
+            } else {
+                Ok(m.len())
+            }
+        }
+    }
+    impl std::panic::RefUnwindSafe for Forward {}
+    for refuse in [false, true] {
+        for form in [Form::Plain, Form::TrySend, Form::Send] {
+            for row in [&ROWS[0], &ROWS[5], &ROWS[15]] {
+                rep.evaluations += 1;
+                rep.distinct(&format!("reentrant {} {:?} {}", refuse, form, row.name));
+                let inner_rig = api::build(&ClientCfg { prefix: "in".into(), ..Default::default() });
+                let handler_rig = api::build(&ClientCfg { prefix: "err".into(), ..Default::default() });
+                let log = Arc::new(Mutex::new(vec![]));
+                let handled = Arc::new(Mutex::new(0usize));
+                let (h2, hc) = (handled.clone(), handler_rig.client);
+                let outer = StatsdClient::builder("out", Forward { inner: inner_rig.client, log: log.clone(), refuse })
+                    .with_error_handler(move |_e| {
+                        *h2.lock().unwrap() += 1;
+                        // report the failure as a metric through yet another client
+                        hc.count_with_tags("client.errors", 1).send();
+                        let _ = hc.incr("client.errors.plain");
+                    })
+                    .build();
+                let val = values_for(row.vt, false).into_iter().find(|v| reffmt::values(row, v).is_ok()).unwrap();
+                let steps = vec![Step::Tag("a".into(), "b".into())];
+                let r = panic::catch_unwind(AssertUnwindSafe(|| call(&outer, row, form, "k", &val, if form == Form::Plain { &[] } else { &steps })));
+                let what = format!("{} {:?} on a client whose sink forwards through a second client and whose handler reports through a third (sink refuses: {})", row.name, form, refuse);
+                match r {
+                    Err(p) => {
+                        rep.violation(Violation {
+                            props: vec!["C03", "C20"],
+                            sig: "calls/reentrant-panic".into(),
+                            what: format!("{} panicked: {}", what, crate::common::payload_str(&*p)),
+                            replay: Json::obj().set("engine", "calls").set("case", what.clone()),
+                        });
+                        continue;
+                    }
+                    Ok(res) => {
+                        let outer_emits = log.lock().unwrap().len();
+                        let inner_emits = inner_rig.sink.0.lock().unwrap().emits.len();
+                        let handler_emits = handler_rig.sink.0.lock().unwrap().emits.len();
+                        let n_handled = *handled.lock().unwrap();
+                        let want_handled = if refuse && form == Form::Send { 1 } else { 0 };
+                        let ok_shape = match (&res, refuse, form) {
+                            (None, _, Form::Send) => true,
+                            (Some(Ok(_)), false, _) => true,
+                            (Some(Err(f)), true, _) => f.kind == ErrorKind::IoError && f.injected == Some(7),
+                            _ => false,
+                        };
+                        if outer_emits != 1 || inner_emits != 2 || n_handled != want_handled || handler_emits != 2 * want_handled || !ok_shape {
+                            rep.violation(Violation {
+                                props: vec!["C03"],
+                                sig: "calls/reentrant-differs".into(),
+                                what: format!("{}: outer sink saw {} strings (1 expected), the forwarded client {} (2), the handler ran {} times ({}), its client saw {} ({}), result {:?}", what, outer_emits, inner_emits, n_handled, want_handled, handler_emits, 2 * want_handled, res),
+                                replay: Json::obj().set("engine", "calls").set("case", what.clone()),
+                            });
+                        }
+                    }
+                }
+            }
+        }
+    }
+    rep.flag("reentrant-handler-and-sink");
+}
+
 pub fn run(spec: &crate::Spec) -> Report {
     let mut rep = Report::new(&spec.raw);
+    if spec.str("part", "single") == "reentrant" {
+        reentrant(&mut rep);
+        // every io::ErrorKind and every errno as the sink's refusal
+        let cfg = ClientCfg { prefix: "p".into(), ..Default::default() };
+        for k in crate::sc_queue::ALL_KINDS.iter() {
+            for form in [Form::Plain, Form::Send] {
+                let c = OneCall { row: &ROWS[0], form, val: Val::I64(1), steps: vec![], answer: Answer::Refuse(*k) };
+                rep.distinct(&format!("{:?}", c));
+                run_history(&mut rep, &cfg, &[c.clone(), c]);
+            }
+        }
+        rep.flag("all-error-kinds");
+        return rep;
+    }
     let thorough = spec.str("tier", "quick") == "thorough";
     let cfg = ClientCfg {
         prefix: "p".into(),
